@@ -57,6 +57,22 @@ pub enum Op {
     SubF(f64),
     MulF(f64),
     DivF(f64),
+    // ---- compound assignment and borrowed right operands (same semantics as the plain forms)
+    AddA,
+    SubA,
+    MulA,
+    DivA,
+    AddAF(f64),
+    SubAF(f64),
+    MulAF(f64),
+    DivAF(f64),
+    AddRef,
+    SubRef,
+    MulRef,
+    DivRef,
+    /// iterator sum / product over k operands
+    Sum(usize),
+    Product(usize),
     // ---- ternary
     MulAdd,
     // ---- Bessel (f64, Copy types only; executed through apply_bessel)
@@ -69,8 +85,9 @@ impl Op {
     pub fn arity(&self) -> usize {
         use Op::*;
         match self {
-            Add | Sub | Mul | Div | Atan2 | AbsSub | Powd => 2,
+            Add | Sub | Mul | Div | Atan2 | AbsSub | Powd | AddA | SubA | MulA | DivA | AddRef | SubRef | MulRef | DivRef => 2,
             MulAdd => 3,
+            Sum(k) | Product(k) => *k,
             _ => 1,
         }
     }
@@ -129,8 +146,8 @@ impl Op {
             Tan => x.cos().abs() > 1e-3,
             Powi(n) => n >= 0 || x != 0.0,
             Powf(_) => x > 0.0,
-            Div => re[1] != 0.0,
-            DivF(f) => f != 0.0,
+            Div | DivA | DivRef => re[1] != 0.0,
+            DivF(f) | DivAF(f) => f != 0.0,
             Atan2 => re[0] != 0.0 || re[1] != 0.0,
             Powd => x > 0.0,
             Abs | Signum => x != 0.0,
@@ -192,6 +209,52 @@ pub fn apply_impl<F: Flt, D: DualNum<F>>(op: Op, a: &[D]) -> D {
         MulF(s) => x.clone() * f(s),
         DivF(s) => x.clone() / f(s),
         MulAdd => x.mul_add(a[1].clone(), a[2].clone()),
+        AddA => {
+            let mut r = x.clone();
+            r += a[1].clone();
+            r
+        }
+        SubA => {
+            let mut r = x.clone();
+            r -= a[1].clone();
+            r
+        }
+        MulA => {
+            let mut r = x.clone();
+            r *= a[1].clone();
+            r
+        }
+        DivA => {
+            let mut r = x.clone();
+            r /= a[1].clone();
+            r
+        }
+        AddAF(s) => {
+            let mut r = x.clone();
+            r += f(s);
+            r
+        }
+        SubAF(s) => {
+            let mut r = x.clone();
+            r -= f(s);
+            r
+        }
+        MulAF(s) => {
+            let mut r = x.clone();
+            r *= f(s);
+            r
+        }
+        DivAF(s) => {
+            let mut r = x.clone();
+            r /= f(s);
+            r
+        }
+        AddRef => x.clone() + &a[1],
+        SubRef => x.clone() - &a[1],
+        MulRef => x.clone() * &a[1],
+        DivRef => x.clone() / &a[1],
+        Sum(_) => a.iter().cloned().sum(),
+        Product(_) => a.iter().cloned().product(),
         BesselJ0 | BesselJ1 | BesselJ2 => panic!("MACHINERY: Bessel operations go through apply_bessel"),
     }
 }
@@ -205,9 +268,29 @@ pub fn apply_bessel<D: BesselDual>(op: Op, x: D) -> D {
     }
 }
 
+impl Op {
+    /// the plain operation a syntactic variant stands for
+    pub fn canonical(&self) -> Op {
+        use Op::*;
+        match *self {
+            AddA | AddRef => Add,
+            SubA | SubRef => Sub,
+            MulA | MulRef => Mul,
+            DivA | DivRef => Div,
+            AddAF(s) => AddF(s),
+            SubAF(s) => SubF(s),
+            MulAF(s) => MulF(s),
+            DivAF(s) => DivF(s),
+            Inv => Recip,
+            o => o,
+        }
+    }
+}
+
 /// Rounding-error constants (multiples of the unit roundoff), DESIGN 2.5.
 pub fn kappa(op: Op) -> f64 {
     use Op::*;
+    let op = op.canonical();
     // calibrated on the pinned tree (DESIGN 2.5): next power of two >= 4 x the largest observed
     // ratio of the class, capped at 2^10
     match op {
@@ -334,6 +417,7 @@ fn atan2_val(y: &Val, x: &Val, u: f64) -> Val {
 /// expression (DESIGN 2.5) — that is done by the caller through `defining_bound`.
 pub fn apply_ref(op: Op, a: &[Val], u: f64) -> Val {
     use Op::*;
+    let op = op.canonical();
     let kap = kappa(op);
     let x = &a[0];
     match op {
@@ -381,6 +465,20 @@ pub fn apply_ref(op: Op, a: &[Val], u: f64) -> Val {
             let p = mul_val(x, &a[1], kappa(Mul), u);
             add_val(&p, &a[2], false, kappa(Add), u)
         }
+        Sum(_) => {
+            let mut acc = constant_like(x, DD::ZERO);
+            for y in a {
+                acc = add_val(&acc, y, false, kappa(Add), u);
+            }
+            acc
+        }
+        Product(_) => {
+            let mut acc = constant_like(x, DD::ONE);
+            for y in a {
+                acc = mul_val(&acc, y, kappa(Mul), u);
+            }
+            acc
+        }
         Powf(p) => {
             // conditioning with respect to the (rounded) exponent: + kappa u |p| |dc_k/dp| |N|^k
             let mut r = smooth(Func::Powf(p), x, kap, u);
@@ -424,6 +522,7 @@ pub const BESSEL_ABS_KAPPA: [f64; 7] = [16.0, 32.0, 256.0, 8192.0, 65536.0, 6553
 /// evaluated at exact operands (E^def of DESIGN 2.5).  None for primitive operations.
 pub fn defining_bound(op: Op, a: &[Val], u: f64) -> Option<Jet<DD>> {
     use Op::*;
+    let op = op.canonical();
     let x = &a[0];
     if matches!(op, SphJ0 | SphJ1 | SphJ2) && x.v.re().abs_dd().hi < 2.0 * u {
         // inside the small-argument series region the closed form is not the defining expression
@@ -510,6 +609,7 @@ pub fn defining_bound(op: Op, a: &[Val], u: f64) -> Option<Jet<DD>> {
 
 pub fn apply_exact<S: Scalar>(op: Op, a: &[Jet<S>], tay: &dyn Fn(Func, &S, usize) -> Vec<S>) -> Jet<S> {
     use Op::*;
+    let op = op.canonical();
     let x = &a[0];
     let k = x.shape.maxdeg;
     match op {
@@ -525,6 +625,27 @@ pub fn apply_exact<S: Scalar>(op: Op, a: &[Jet<S>], tay: &dyn Fn(Func, &S, usize
         MulF(s) => x.scale(&S::from_f64(s)),
         DivF(s) => x.scale(&S::one().div(&S::from_f64(s))),
         MulAdd => x.mul(&a[1]).add(&a[2]),
+        Sum(_) => {
+            let mut acc = Jet::zero(&x.shape);
+            for y in a {
+                acc = acc.add(y);
+            }
+            acc
+        }
+        Product(_) => {
+            let mut acc = Jet::constant(&x.shape, S::one());
+            for y in a {
+                acc = acc.mul(y);
+            }
+            acc
+        }
+        Abs => {
+            if x.re().to_f64_approx() >= 0.0 {
+                x.clone()
+            } else {
+                x.neg()
+            }
+        }
         _ => panic!("MACHINERY: {op:?} has no exact semantics"),
     }
 }
